@@ -27,6 +27,8 @@ def run(rep):
     dtchecks.inverse_replay(rep, fnd, tab, res2.records, "C11")
     dtchecks.numeric_inverse(rep, fnd, "C11", rep.tier)
     stagetrace.validate_dtcwt(rep, "C11", rep.tier, "DTCWTInverse")
+    from .. import scalechecks
+    scalechecks.dtcwt(rep, "C11", rep.tier, "inverse")          # large inputs (size thresholds)
     if rep.tier == "thorough":
         suitetrace.validate_suite(rep, "C11", "DTCWTInverse")
     rep.assumptions += ["bounded sizes (coverage.tlc_runs)", "a pyramid whose lowpass AND coarsest level are both absent has no shape: outside the property"]
